@@ -23,17 +23,19 @@ type tableFeat struct {
 	Object     string // "", embed, object, applet, iframe
 	BlankCap   bool   // an empty <caption> in front of another header structure (never alone)
 	Pre        int    // another table before the one under test: 0 none, 1 scope cell, 2 headers cell, 3 lone abbr, 4 plain 2x2, 5 caption+th
+	RoleSpell  int    // spelling of role values: as is, trailing blank, leading blank, capitalised, with a fallback role after it
+	LongPage   bool   // the page has more than 500 words (the first extraction pass decides)
 	EditSpell  int    // spelling of the contenteditable attribute on a <div>: ="true", ="", bare, ="plaintext-only"
 	Place      string // div, section, blockquote, layout-td
 }
 
 var (
 	tfRoles    = []string{"", "presentation", "grid", "treegrid", "main"}
-	tfDesc     = []string{"", "row", "gridcell", "search"}
+	tfDesc     = []string{"", "row", "gridcell", "search", "navigation", "complementary"}
 	tfRows     = []int{3, 1, 2, 19, 20}
 	tfCols     = []int{4, 1, 2, 5}
-	tfHeaders  = []string{"", "caption", "thead", "tfoot", "colgroup", "col", "th", "th-button", "th-rowhead", "th-corner"}
-	tfCellAttr = []string{"", "abbr", "headers", "scope", "loneabbr", "negspan"}
+	tfHeaders  = []string{"", "caption", "thead", "tfoot", "colgroup", "col", "th", "th-button", "th-rowhead", "th-corner", "th-img"}
+	tfCellAttr = []string{"", "abbr", "headers", "scope", "loneabbr", "negspan", "loneabbr-nested"}
 	tfObjects  = []string{"", "embed", "object", "applet", "iframe"}
 	tfCells    = []int{0, 10, 11}
 	tfPlaces   = []string{"div", "section", "blockquote", "layout-td"}
@@ -125,11 +127,26 @@ func (t *tokCounter) toks(n int) string {
 	return strings.Join(s, " ")
 }
 
+// spellRole writes a role value in one of its legal spellings.
+func (f tableFeat) spellRole(role string) string {
+	switch f.RoleSpell % 5 {
+	case 1:
+		return role + " "
+	case 2:
+		return " " + role
+	case 3:
+		return strings.ToUpper(role[:1]) + role[1:]
+	case 4:
+		return role + " none"
+	}
+	return role
+}
+
 func (f tableFeat) html(g *tokCounter) string {
 	var sb strings.Builder
 	sb.WriteString("<table")
 	if f.Role != "" {
-		sb.WriteString(` role="` + f.Role + `"`)
+		sb.WriteString(` role="` + f.spellRole(f.Role) + `"`)
 	}
 	if f.Datatable0 {
 		sb.WriteString(` datatable="0"`)
@@ -178,7 +195,7 @@ func (f tableFeat) html(g *tokCounter) string {
 	for r := 0; r < f.Rows; r++ {
 		sb.WriteString("<tr")
 		if r == 0 && f.DescRole == "row" {
-			sb.WriteString(` role="row"`)
+			sb.WriteString(` role="` + f.spellRole("row") + `"`)
 		}
 		if r == 0 && f.CellAttr == "negspan" {
 			sb.WriteString(` rowspan="-1"`)
@@ -196,13 +213,22 @@ func (f tableFeat) html(g *tokCounter) string {
 			}
 		}
 		for c := 0; c < n; c++ {
+			if f.Header == "th-img" && c == 0 && n > 1 {
+				if cells > 10 && f.Object == "" {
+					// a row header that is only a picture (no text): still a header cell, and a cell
+					sb.WriteString(`<th><img src="/flag` + fmt.Sprint(r) + `.png" width="16" height="11"></th>`)
+				} else {
+					sb.WriteString("<th>" + g.tok() + "</th>")
+				}
+				continue
+			}
 			if f.Header == "th-rowhead" && c == 0 && n > 1 {
 				// row headers: the first cell of every row is a <th>
 				sb.WriteString("<th>" + g.tok() + "</th>")
 				continue
 			}
 			sb.WriteString("<td")
-			first := r == 0 && (c == 0 || (c == 1 && f.Header == "th-rowhead" && n > 1))
+			first := r == 0 && (c == 0 || (c == 1 && (f.Header == "th-rowhead" || f.Header == "th-img") && n > 1))
 			if first {
 				switch f.CellAttr {
 				case "negspan":
@@ -214,12 +240,14 @@ func (f tableFeat) html(g *tokCounter) string {
 				case "scope":
 					sb.WriteString(` scope="col"`)
 				}
-				if f.DescRole == "gridcell" || f.DescRole == "search" {
-					sb.WriteString(` role="` + f.DescRole + `"`)
+				if f.DescRole != "" && f.DescRole != "row" {
+					sb.WriteString(` role="` + f.spellRole(f.DescRole) + `"`)
 				}
 			}
 			sb.WriteString(">")
-			if first && f.CellAttr == "loneabbr" {
+			if first && f.CellAttr == "loneabbr-nested" {
+				sb.WriteString(`<abbr title="t"><b>` + g.tok() + `</b></abbr>`)
+			} else if first && f.CellAttr == "loneabbr" {
 				sb.WriteString("<abbr>" + g.tok() + "</abbr>")
 			} else {
 				sb.WriteString(g.tok())
@@ -295,7 +323,13 @@ func (f tableFeat) docRange() (string, int, int) {
 	lo := g.n
 	tbl := f.html(g)
 	hi := g.n
-	return head + tbl + `<p>` + g.toks(60) + `</p></div></body></html>`, lo, hi
+	tail := `<p>` + g.toks(60) + `</p>`
+	if f.LongPage {
+		for i := 0; i < 5; i++ {
+			tail += `<p>` + g.toks(90) + `</p>`
+		}
+	}
+	return head + tbl + tail + `</div></body></html>`, lo, hi
 }
 
 func (f tableFeat) doc() string {
